@@ -62,11 +62,26 @@ func runC02(c *Ctx) {
 			}
 		}
 		key := "signer|" + fnKey(signed)
-		if sigCall == nil || out == nil {
+		var joined []ssa.Value
+		if out == nil {
+			for _, b := range signed.Blocks {
+				if ret, ok := b.Instrs[len(b.Instrs)-1].(*ssa.Return); ok && len(ret.Results) > 0 {
+					if ops, ok := barJoin(ret.Results[0]); ok {
+						joined = ops
+					}
+				}
+			}
+		}
+		if sigCall == nil || (out == nil && joined == nil) {
 			c.bad(rule, key, signed.Blocks[0].Instrs[0], "SignedValue no longer signs with cookieSignature or no longer emits value|timestamp|signature", nil, 0)
 		} else {
 			a := func(i int64) ssa.Value { return unwrap(varargElem(sigCall.Call.Args[1], i)) }
-			o := func(i int64) ssa.Value { return unwrap(varargElem(out.Call.Args[1], i)) }
+			o := func(i int64) ssa.Value {
+				if joined != nil {
+					return joined[i]
+				}
+				return unwrap(varargElem(out.Call.Args[1], i))
+			}
 			isEnc := func(v ssa.Value) bool {
 				call, ok := v.(*ssa.Call)
 				return ok && call.Call.StaticCallee() != nil && call.Call.StaticCallee().Name() == "EncodeToString" && call.Call.Args[1] == signed.Params[2]
@@ -74,7 +89,20 @@ func runC02(c *Ctx) {
 			isTime := func(v ssa.Value) bool {
 				call, ok := v.(*ssa.Call)
 				if !ok || !isStd(&call.Call, "fmt", "Sprintf") {
-					if ok && call.Call.StaticCallee() != nil && (call.Call.StaticCallee().Name() == "FormatInt" || call.Call.StaticCallee().Name() == "Itoa") {
+					if ok && (isStd(&call.Call, "strconv", "FormatInt") || isStd(&call.Call, "strconv", "Itoa")) {
+						// strconv.FormatInt(now.Unix(), 10) / Itoa(int(now.Unix())): the decimal Unix time of the `now` parameter
+						x := unwrap0(call.Call.Args[0])
+						if cv, isCv := x.(*ssa.Convert); isCv {
+							x = unwrap0(cv.X)
+						}
+						u, isCall := x.(*ssa.Call)
+						if !isCall || !isTimeMethod(&u.Call, "Unix") || u.Call.Args[0] != signed.Params[3] {
+							return false
+						}
+						if isStd(&call.Call, "strconv", "FormatInt") {
+							base, _ := ConstInt(call.Call.Args[1])
+							return base == 10
+						}
 						return true
 					}
 					return false
@@ -83,7 +111,10 @@ func runC02(c *Ctx) {
 				u, ok := el.(*ssa.Call)
 				return ok && isTimeMethod(&u.Call, "Unix") && u.Call.Args[0] == signed.Params[3]
 			}
-			f, _ := ConstString(out.Call.Args[0])
+			f := "%s|%s|%s"
+			if joined == nil {
+				f, _ = ConstString(out.Call.Args[0])
+			}
 			okSigner := a(0) == signed.Params[0] && a(1) == signed.Params[1] && isEnc(a(2)) && isTime(a(3)) && varargElem(sigCall.Call.Args[1], 4) == nil &&
 				o(0) == a(2) && o(1) == a(3) && f == "%s|%s|%s"
 			sigOut := false
@@ -105,17 +136,8 @@ func runC02(c *Ctx) {
 			key := "verifier|" + fnKey(validate)
 			args := cs.Common().Args
 			part := func(v ssa.Value) int64 {
-				n, ok := indexLoad(unwrap(v))
+				n, ok := barPart(v)
 				if !ok {
-					return -1
-				}
-				// the indexed slice must be strings.Split(cookie.Value, "|")
-				ia := unwrap(v).(*ssa.UnOp).X.(*ssa.IndexAddr)
-				call, ok := ia.X.(*ssa.Call)
-				if !ok || !isStd(&call.Call, "strings", "Split") {
-					return -1
-				}
-				if s, _ := ConstString(call.Call.Args[1]); s != "|" {
 					return -1
 				}
 				return n
@@ -140,6 +162,14 @@ func runC02(c *Ctx) {
 						if n, ok := ConstInt(bo.Y); ok && n == 3 {
 							three = true
 						}
+						// strings.Count(value, "|") != 2: exactly two separators = exactly three parts
+						if n, ok := ConstInt(bo.Y); ok && n == 2 {
+							if call, ok := unwrap0(bo.X).(*ssa.Call); ok && isStd(&call.Call, "strings", "Count") {
+								if s, _ := ConstString(call.Call.Args[1]); s == "|" {
+									three = true
+								}
+							}
+						}
 					}
 				}
 			}
@@ -160,7 +190,7 @@ func runC02(c *Ctx) {
 			dc, ok := extractOfCall(p, v0, 0)
 			okDec := ok && dc.C.StaticCallee() != nil && dc.C.StaticCallee().Name() == "DecodeString"
 			if okDec {
-				n, ok := indexLoad(p.Resolve(p.Arg(dc, 1)).V)
+				n, ok := barPart(p.Resolve(p.Arg(dc, 1)).V)
 				okDec = ok && n == 0
 				if nn, k := p.ResultNil(dc.DV(), 1, p.End()); !(k && nn) {
 					okDec = false
@@ -764,4 +794,74 @@ func runC02R9(c *Ctx, rule string) {
 	if n == 0 {
 		c.R.Unknown(rule, "fresh-nonce|none", "-", "no Cipher.Encrypt implementation uses a nonce/IV consumer the rule knows")
 	}
+}
+
+// barPart: v is part k (0, 1 or 2) of a "value|timestamp|signature" string, in any of the idioms met so far (the second
+// and third were added for neutral batch 8, a behaviour-preserving rewrite):
+//   strings.Split(x, "|")[k] / strings.SplitN(x, "|", 3)[k];
+//   a, rest, _ := strings.Cut(x, "|"); b, c, _ := strings.Cut(rest, "|")   — a = part 0, b = part 1, c = part 2
+// (for exactly three parts; the three-part requirement is a separate obligation).
+func barPart(v ssa.Value) (int64, bool) {
+	v = unwrap(v)
+	if n, ok := indexLoad(v); ok {
+		ia := v.(*ssa.UnOp).X.(*ssa.IndexAddr)
+		call, ok := ia.X.(*ssa.Call)
+		if !ok || !(isStd(&call.Call, "strings", "Split") || isStd(&call.Call, "strings", "SplitN")) {
+			return -1, false
+		}
+		if s, _ := ConstString(call.Call.Args[1]); s != "|" {
+			return -1, false
+		}
+		return n, true
+	}
+	ex, ok := v.(*ssa.Extract)
+	if !ok {
+		return -1, false
+	}
+	isCutBar := func(t ssa.Value) (*ssa.Call, bool) {
+		call, ok := t.(*ssa.Call)
+		if !ok || !isStd(&call.Call, "strings", "Cut") {
+			return nil, false
+		}
+		s, _ := ConstString(call.Call.Args[1])
+		return call, s == "|"
+	}
+	cut, ok := isCutBar(ex.Tuple)
+	if !ok || ex.Index > 1 {
+		return -1, false
+	}
+	// is the cut string itself the remainder of an earlier cut?
+	if in, ok := unwrap(cut.Call.Args[0]).(*ssa.Extract); ok && in.Index == 1 {
+		if _, ok := isCutBar(in.Tuple); ok {
+			return int64(ex.Index) + 1, true
+		}
+	}
+	if ex.Index == 0 {
+		return 0, true
+	}
+	return -1, false
+}
+
+// barJoin: v is a + "|" + b + "|" + c (string concatenation) — returns the three operands.
+func barJoin(v ssa.Value) ([]ssa.Value, bool) {
+	var flat []ssa.Value
+	var rec func(v ssa.Value)
+	rec = func(v ssa.Value) {
+		if b, ok := v.(*ssa.BinOp); ok && b.Op == token.ADD {
+			rec(b.X)
+			rec(b.Y)
+			return
+		}
+		flat = append(flat, v)
+	}
+	rec(v)
+	if len(flat) != 5 {
+		return nil, false
+	}
+	for _, i := range []int{1, 3} {
+		if s, ok := ConstString(flat[i]); !ok || s != "|" {
+			return nil, false
+		}
+	}
+	return []ssa.Value{unwrap(flat[0]), unwrap(flat[2]), unwrap(flat[4])}, true
 }
